@@ -141,8 +141,14 @@ type merr struct{ kind string }
 
 func fail(kind string) *merr { return &merr{kind} }
 
-func (m *machine) bal(acct, asset string) *big.Int {
+// read: a balance consulted to decide something (what a source can give, a balance() /
+// overdraft() origin, a save) - logged for C10.
+func (m *machine) read(acct, asset string) *big.Int {
 	m.res.Reads = append(m.res.Reads, [2]string{acct, asset})
+	return m.bal(acct, asset)
+}
+
+func (m *machine) bal(acct, asset string) *big.Int {
 	a, ok := m.V[acct]
 	if !ok {
 		a = map[string]*big.Int{}
@@ -325,7 +331,7 @@ func (m *machine) declare(p *gen.Program) *merr {
 			if !ok1 || !ok2 {
 				return fail(ETypeError)
 			}
-			b := new(big.Int).Set(m.bal(string(acct), string(asset)))
+			b := new(big.Int).Set(m.read(string(acct), string(asset)))
 			if d.Origin.Name == "balance" {
 				if b.Sign() < 0 {
 					return fail(ENegativeBalance)
@@ -510,7 +516,7 @@ func (m *machine) stmt(s gen.Stmt) *merr {
 		if e != nil {
 			return e
 		}
-		b := m.bal(acct, asset)
+		b := m.read(acct, asset)
 		if amt == nil {
 			if b.Sign() > 0 {
 				b.SetInt64(0)
@@ -638,7 +644,7 @@ func (m *machine) availOf(acct string, grant *big.Int) *big.Int {
 	if acct == "world" || grant == nil {
 		return nil
 	}
-	a := new(big.Int).Add(m.bal(acct, m.asset), grant)
+	a := new(big.Int).Add(m.read(acct, m.asset), grant)
 	if g, ok := m.given[acct]; ok {
 		a.Sub(a, g)
 	}
@@ -1032,4 +1038,22 @@ func Grants(p *gen.Program, in Inputs) (unbounded map[string]bool, grants map[[2
 		}
 	}
 	return
+}
+
+// SaveParams evaluates the parameters of a save statement (amt == nil means `save [A *]`).
+func SaveParams(p *gen.Program, in Inputs, s *gen.Save) (acct, asset string, amt *big.Int, ok bool) {
+	m := &machine{in: in, vars: map[string]Value{}, V: cloneBal(in.Bal),
+		res: &Result{TxMeta: map[string]Value{}, AcctMeta: map[string]map[string]string{}}}
+	if e := m.declare(p); e != nil {
+		return "", "", nil, false
+	}
+	asset, amt, e := m.sent(s.Sent)
+	if e != nil {
+		return "", "", nil, false
+	}
+	acct, e = m.evalAcct(s.Acct)
+	if e != nil {
+		return "", "", nil, false
+	}
+	return acct, asset, amt, true
 }
